@@ -70,7 +70,7 @@ CHECKS = {
     ),
     "C15": dict(
         text="TLC checks Session (hidden process state: SCF class attributes, the element list stored in the caller's dict, pending autograd graphs) over all call histories up to length 4-5 drawn from a pool of 9 heterogeneous jobs (tight/loose implicit-backward jobs, dict reuse with new elements, a failing call, CIS, UHF, SP2+unrolled backward, XL-BOMD MD + resume): InputsOnlyForward, InputsOnlyBackward, DictStable; the two shipped deviations are refuted as spec mutants. Histories are exported with the expected hidden state after every prefix; sampled histories are executed in one child each on the real API and after every action the real hidden state must equal the model's, and every job's outputs (energies, forces, charges, gap, CIS energies, MD phase point, gradients of summed losses) must equal bitwise those of the same job run first in a fresh process; thread counts 2/4/16 vs 1 within 1e-9.",
-        note="One driver object per settings dict is re-used across calls as long as the dict's element list (and the job's declared settings) did not change. Pool of 13 jobs incl. a far-pair system (atom pairs beyond the overlap cutoff) and a call refused inside the SCF solver. Shared mutable default dicts are observed to accumulate keys that are always overwritten before being read; they are reported, not modelled.",
+        note="One driver object per settings dict is re-used across calls as long as the dict's element list (and the job's declared settings) did not change. Pool of 16 jobs incl. an unrestricted singlet, one MD driver object used for different runs (incl. control_energy_shift), a far-pair system (atom pairs beyond the overlap cutoff) and a call refused inside the SCF solver. Shared mutable default dicts are observed to accumulate keys that are always overwritten before being read; they are reported, not modelled.",
         tech="explicit TLA+ model (Session) checked by TLC over call histories; TLC-exported histories replayed on the real API with hidden-state comparison after every call",
         ref="DESIGN.md §4 C15",
     ),
